@@ -11,7 +11,7 @@ from . import extract
 VERIF = extract.VERIF
 
 
-def run_witnesses(root):
+def run_witnesses(root, renames=None):
     """returns (results dict 'C07W1' -> {'compile_fail': bool|None, 'twin': bool|None}, log tail)"""
     th = extract.tree_hash(root)[:16]
     wd = os.path.join(extract.CACHE, 'witness-' + th)
@@ -20,7 +20,14 @@ def run_witnesses(root):
         toml = f.read().replace('@ROOT@', root)
     with open(os.path.join(wd, 'Cargo.toml'), 'w') as f:
         f.write(toml)
-    shutil.copy(os.path.join(VERIF, 'witness', 'src', 'lib.rs'), os.path.join(wd, 'src', 'lib.rs'))
+    with open(os.path.join(VERIF, 'witness', 'src', 'lib.rs')) as f:
+        src = f.read()
+    # private methods named by a witness follow a pure rename (rules/renames.py: new path -> audited path)
+    for newp, oldp in (renames or {}).items():
+        old_name, new_name = oldp.rsplit('::', 1)[-1], newp.rsplit('::', 1)[-1]
+        src = re.sub(r'(?<=\.)%s(?=\()' % re.escape(old_name), new_name, src)
+    with open(os.path.join(wd, 'src', 'lib.rs'), 'w') as f:
+        f.write(src)
     if os.path.exists(os.path.join(root, 'Cargo.lock')):
         shutil.copy(os.path.join(root, 'Cargo.lock'), os.path.join(wd, 'Cargo.lock'))
     env = dict(os.environ, CARGO_NET_OFFLINE='true', CARGO_TARGET_DIR=os.path.join(extract.CACHE, 'target-witness'))
@@ -40,11 +47,11 @@ def run_witnesses(root):
     return res, r.stdout[-3000:], r.returncode
 
 
-def report_witnesses(rep, pid, root):
+def report_witnesses(rep, pid, root, renames=None):
     rule = 'W'
     rep.rule(rule, 'compile-fail witnesses: doc-tests `compile_fail,E....` compiled against the analysed tree with cargo '
                    '+nightly test --doc, each paired with a compiling (no_run) twin that differs by the offending line')
-    res, log, rc = run_witnesses(root)
+    res, log, rc = run_witnesses(root, renames)
     mine = {k: v for k, v in res.items() if k.startswith(pid)}
     if not res:
         rep.missing(rule, pid + ' witnesses', 'the witness crate did not build or produced no results: ' + log[-400:])
